@@ -183,3 +183,76 @@ if __name__ == "__main__":
     print(json.dumps(f["_meta"]))
     for c in CRATES:
         print(c, len(f[c]["bodies"]), "bodies")
+
+
+# ---------------------------------------------------------------------------------------------------------------
+# C17: facts of a *generated* corpus crate (types deriving Serialize / Deserialize / AvroSchema), type-checked against
+# the current tree of the repo through the same driver. Memoised by (tree hash, corpus source hash).
+def extract_corpus(size="quick", repo=None):
+    repo = repo or repo_root()
+    ensure_driver()
+    sys.path.insert(0, os.path.join(VERIF, "corpus"))
+    import gen as corpus_gen
+    src = corpus_gen.emit(size)
+    key, nfiles = _hash_tree(repo)
+    ch = hashlib.sha256(src.encode()).hexdigest()[:12]
+    tag = "corpus-%s-%s-%s" % (key, ch, size)
+    fdir = os.path.join(CACHE, "facts", tag)
+    os.makedirs(os.path.join(CACHE, "facts"), exist_ok=True)
+    pk = os.path.join(fdir, "facts.pickle")
+    t0 = time.time()
+    if not os.path.exists(pk):
+        lock = open(os.path.join(CACHE, "facts", ".lockcorpus"), "w")
+        fcntl.flock(lock, fcntl.LOCK_EX)
+        try:
+            if not os.path.exists(pk):
+                work = os.path.join(CACHE, "corpus-work")
+                shutil.rmtree(work, ignore_errors=True)
+                os.makedirs(os.path.join(work, "src"))
+                with open(os.path.join(work, "Cargo.toml"), "w") as fh:
+                    fh.write('[package]\nname = "avro_verif_corpus"\nversion = "0.0.0"\nedition = "2024"\npublish = false\n\n[lib]\npath = "src/lib.rs"\n\n'
+                             '[dependencies]\napache-avro = { path = "%s/avro", features = ["derive"] }\nserde = { version = "1", features = ["derive"] }\nserde_json = "1"\n\n[workspace]\n' % repo)
+                shutil.copy(os.path.join(repo, "Cargo.lock"), os.path.join(work, "Cargo.lock"))
+                with open(os.path.join(work, "src", "lib.rs"), "w") as fh:
+                    fh.write(src)
+                tmp = "%s.tmp%d" % (fdir, os.getpid())
+                shutil.rmtree(tmp, ignore_errors=True)
+                os.makedirs(tmp)
+                target = os.path.join(CACHE, "target-corpus")
+                fp = os.path.join(target, "debug", ".fingerprint")
+                if os.path.isdir(fp):
+                    for d in os.listdir(fp):
+                        if d.startswith(("avro_verif_corpus", "avro-verif-corpus")):
+                            shutil.rmtree(os.path.join(fp, d), ignore_errors=True)
+                env = dict(os.environ)
+                env.update({"LD_LIBRARY_PATH": sysroot() + "/lib", "AVROLINT_OUT": tmp, "AVROLINT_CRATES": "avro_verif_corpus",
+                            "RUSTFLAGS": "-Zmir-opt-level=0 -Awarnings", "RUSTC_WORKSPACE_WRAPPER": DRIVER, "CARGO_TARGET_DIR": target, "CARGO_NET_OFFLINE": "true"})
+                env.pop("RUSTC_WRAPPER", None)
+                r = subprocess.run(["cargo", "+nightly", "check", "--offline"], cwd=work, env=env, stdout=subprocess.PIPE, stderr=subprocess.STDOUT, text=True)
+                out = {"_meta": {"repo": repo, "tree_hash": key, "size": size, "corpus_hash": ch, "compile_ok": r.returncode == 0, "types": src.count("derive(")}}
+                if r.returncode != 0:
+                    # a corpus type that no longer compiles is itself a finding of the check (the derive rejects or mis-expands it)
+                    out["_meta"]["compile_errors"] = [ln for ln in r.stdout.splitlines() if ln.startswith("error")][:20]
+                    out["_meta"]["compile_log"] = r.stdout[-4000:]
+                for f in sorted(os.listdir(tmp)):
+                    if f.endswith(".json"):
+                        with open(os.path.join(tmp, f)) as fh:
+                            d = json.load(fh)
+                        out[d["crate"]] = d
+                        os.unlink(os.path.join(tmp, f))
+                if r.returncode == 0 and "avro_verif_corpus" not in out:
+                    shutil.rmtree(tmp, ignore_errors=True)
+                    raise RuntimeError("corpus extraction: no fact file (wrapper skipped?)")
+                out["_meta"]["extract_wall_s"] = round(time.time() - t0, 2)
+                with open(os.path.join(tmp, "facts.pickle"), "wb") as fh:
+                    pickle.dump(out, fh, protocol=pickle.HIGHEST_PROTOCOL)
+                shutil.rmtree(fdir, ignore_errors=True)
+                try:
+                    os.rename(tmp, fdir)
+                except OSError:
+                    shutil.rmtree(tmp, ignore_errors=True)
+        finally:
+            fcntl.flock(lock, fcntl.LOCK_UN)
+            lock.close()
+    with open(pk, "rb") as fh:
+        return pickle.load(fh)
